@@ -188,7 +188,7 @@ def run(tier):
     chunk = 12000
     for i in range(0, len(scen), chunk):
         p.push(scen[i:i + chunk], "s%d" % (i // chunk))
-    p.confirm(v, sig)
+    p.confirm(v, sig, limit=24)
     rc = v.finish()
     cls = collections.Counter()
     for s in texts:
